@@ -8,6 +8,7 @@ import (
 
 func init() {
 	env.Register("C06_Quorum", C06_Quorum)
+	env.Register("C06_IdShapes", C06_IdShapes)
 }
 
 // reference: weight of the committee members whose id occurs in the list (each member once)
@@ -112,5 +113,65 @@ func C06_Quorum() {
 	}
 	if isQ1 && isQ2 {
 		env.Reach("C06.two_quorums")
+	}
+}
+
+// C06_IdShapes: member ids of length L that share their first L-1 bytes (distinct last byte), symbolic weights;
+// a list of m entries, each of symbolic length L-1, L or L+1 with the shared prefix followed by symbolic bytes
+// (so: truncated ids, ids extended by an arbitrary byte incl. 0x00, ids differing in the last byte only).
+// Only an entry that equals a member's id byte for byte and in length may add that member's weight.
+func C06_IdShapes() {
+	n := 4
+	L := env.Param("idlen")
+	m := env.Param("m")
+	prefix := make([]byte, L-1)
+	for i := range prefix {
+		prefix[i] = byte(0xA0 + i)
+	}
+	w := make([]uint64, n)
+	members := make([]interfaces.CommitteeMember, n)
+	total := uint64(0)
+	for i := 0; i < n; i++ {
+		w[i] = env.NondetU64("w")
+		env.Assume(env.Not(env.AddOverflows(total, w[i])))
+		total += w[i]
+		id := append(append([]byte{}, prefix...), byte(i+1))
+		members[i] = interfaces.CommitteeMember{Id: primitives.MemberId(id), Weight: primitives.MemberWeight(w[i])}
+	}
+	env.Assume(total > 0)
+	list := make([]primitives.MemberId, m)
+	isMember := make([][]bool, m) // isMember[k][i]: entry k is exactly member i's id
+	for k := 0; k < m; k++ {
+		ln := L - 1 + env.Choice("len", 3)
+		e := make([]byte, ln)
+		for x := 0; x < ln; x++ {
+			if x < L-1 {
+				e[x] = prefix[x]
+			} else {
+				e[x] = env.NondetU8("tail")
+			}
+		}
+		list[k] = primitives.MemberId(e)
+		isMember[k] = make([]bool, n)
+		for i := 0; i < n; i++ {
+			isMember[k][i] = ln == L && e[L-1] == byte(i+1)
+		}
+	}
+	ref := uint64(0)
+	for i := 0; i < n; i++ {
+		in := false
+		for k := 0; k < m; k++ {
+			in = env.Or(in, isMember[k][i])
+		}
+		ref += env.IteU64(in, w[i], 0)
+	}
+	fRef := (total - 1) / 3
+	isQ, wq, _ := IsQuorum(list, members)
+	hon, wh, _ := HasHonest(list, members)
+	env.Assert("C06.weight", env.And(uint64(wq) == ref, uint64(wh) == ref))
+	env.Assert("C06.isquorum_def", isQ == (ref >= total-fRef))
+	env.Assert("C06.hashonest_def", hon == (ref > fRef))
+	if isQ {
+		env.Reach("C06.shapes.quorum")
 	}
 }
